@@ -40,7 +40,12 @@ def register(reg):
                  assumes_inv=False, maintains_inv=False, commit='kv-put', trusted=T + 'a direct put is an atomic single-key update')
     reg.contract(KV + '.iterator', params={'self': Obj(KV), 'prefix': KBytes, 'reverse': Bool}, returns=ROWS,
                  defaults={'reverse': False, 'prefix': b''},
+                 ghost_results={'g_pos': Dict(KBytes, Int)},
                  ensures=[
+                     # position of every matching key in the result (witness function: keeps invariants free of exists)
+                     ('positions', 'forall(lambda k=Bytes: implies(k in self.g_map and has_prefix(prefix, k), '
+                                   '0 <= lookup(g_pos, k) and lookup(g_pos, k) < len(result) and result[lookup(g_pos, k)][0] == k))'),
+                     ('empty-prefix', 'implies(len(prefix) == 0, forall(lambda k=Bytes: has_prefix(prefix, k)))'),
                      ('rows', 'forall(lambda j=Int: implies(0 <= j and j < len(result), result[j][0] in self.g_map and '
                               'result[j][1] == lookup(self.g_map, result[j][0]) and has_prefix(prefix, result[j][0])))'),
                      ('all', 'forall(lambda k=Bytes: implies(k in self.g_map and has_prefix(prefix, k), '
